@@ -4,6 +4,7 @@ import (
 	"bufio"
 	"errors"
 	"fmt"
+	"io"
 	"net"
 	"net/http"
 	"strings"
@@ -28,6 +29,9 @@ type RealCase struct {
 	Split     int  `json:"split"`
 	HalfClose bool `json:"half_close"`
 	WaitCtx   bool `json:"wait_ctx"`
+	// BodyLen > 0: the upgrade request carries a body of that many bytes, which
+	// the handler reads before it upgrades; the frames follow the body.
+	BodyLen int `json:"body_len,omitempty"`
 }
 
 func genRealCase(t *rapid.T) RealCase {
@@ -41,6 +45,9 @@ func genRealCase(t *rapid.T) RealCase {
 	}
 	c.HalfClose = rapid.Bool().Draw(t, "half_close")
 	c.WaitCtx = c.HalfClose && rapid.Bool().Draw(t, "wait_ctx")
+	if rapid.IntRange(0, 3).Draw(t, "with_body") == 0 {
+		c.BodyLen = rapid.SampledFrom([]int{1, 5, 64, 5000}).Draw(t, "body_len")
+	}
 	return c
 }
 
@@ -82,6 +89,12 @@ func realServer() (string, error) {
 				case <-time.After(2 * time.Second):
 				}
 			}
+			if c.BodyLen > 0 {
+				if b, _ := io.ReadAll(r.Body); len(b) != c.BodyLen {
+					res <- realResult{upgradeErr: fmt.Errorf("harness: request body of %d bytes arrived as %d", c.BodyLen, len(b))}
+					return
+				}
+			}
 			u := websocket.Upgrader{ReadBufferSize: c.ReadBuf, EnableCompression: c.Compress, CheckOrigin: allowOrigin}
 			conn, err := u.Upgrade(w, r, nil)
 			if err != nil {
@@ -89,6 +102,10 @@ func realServer() (string, error) {
 				return
 			}
 			defer conn.Close()
+			// everything was sent before the handler ran: a read that has to wait
+			// means bytes were lost (a failure that took this long is re-evaluated
+			// by the runner's stall rule)
+			conn.SetReadDeadline(time.Now().Add(5 * time.Second))
 			model := BuildStream(c.S, true, c.Compress)
 			lens := make([]int, len(model.Msgs))
 			for i, m := range model.Msgs {
@@ -128,7 +145,12 @@ func checkC17Real(c RealCase, o *Obs) error {
 	if c.Compress {
 		req += "Sec-WebSocket-Extensions: permessage-deflate; server_no_context_takeover; client_no_context_takeover\r\n"
 	}
-	req += "\r\n"
+	if c.BodyLen > 0 {
+		req += fmt.Sprintf("Content-Length: %d\r\n\r\n%s", c.BodyLen, strings.Repeat("b", c.BodyLen))
+		o.Class("request_with_body")
+	} else {
+		req += "\r\n"
+	}
 	wire := model.Wire
 	split := c.Split
 	if split < 0 || split > len(wire) {
